@@ -206,7 +206,36 @@ func (b *builder) unit(depth int) gram.Ref {
 	if depth <= 0 {
 		return b.tok()
 	}
-	switch r.Intn(16) {
+	switch r.Intn(18) {
+	case 16, 17:
+		// adjacent lists with values of one Go type (two rule lists or two
+		// token lists side by side, the second one possibly empty): an empty
+		// list must be empty, whatever lies below it on the stack
+		mk := func() gram.Ref {
+			if r.Chance(1, 2) {
+				return b.tok()
+			}
+			// a rule that begins with a token of its own
+			return b.rule(P(T(b.tok()), TS(b.oldTok(), gram.Opt)))
+		}
+		x, y := mk(), mk()
+		for y == x {
+			y = mk()
+		}
+		if x.Kind != y.Kind {
+			// same Go type needs the same kind of element
+			if x.Kind == gram.KTok {
+				y = b.tok()
+			} else {
+				y = b.rule(P(T(b.tok())))
+			}
+		}
+		first := []gram.Term{TS(x, gram.Star), TS(x, gram.Plus), TL(x, b.tok(), false)}[r.Intn(3)]
+		second := []gram.Term{TS(y, gram.Star), TS(y, gram.Star), TL(y, b.tok(), true)}[r.Intn(3)]
+		if r.Chance(1, 2) {
+			return b.rule(P(T(b.tok()), first, second, T(b.tok())))
+		}
+		return b.rule(P(first, second, T(b.tok())))
 	case 14, 15:
 		// the same element under several sugar forms and with different
 		// separators in one specification (helper rules are shared by name)
